@@ -132,7 +132,12 @@ func (lh *WorkerLoop) handleUpdateState(receivedBlockWithProof *blockWithProof) 
 	}
 }
 
-func (lh *WorkerLoop) ValidateBlockConsensus(ctx context.Context, block interfaces.Block, blockProofBytes []byte, prevBlock interfaces.Block, maybePrevBlockProofBytes []byte, softVerify bool) error {
+func (lh *WorkerLoop) ValidateBlockConsensus(ctx context.Context, block interfaces.Block, blockProofBytes []byte, prevBlock interfaces.Block, maybePrevBlockProofBytes []byte, softVerify bool) (err error) {
+	defer func() { // malformed proof bytes make the lazily parsing accessors panic
+		if r := recover(); r != nil {
+			err = errors.Errorf("ValidateBlockConsensus: malformed blockProof: %v", r)
+		}
+	}()
 	if ctx.Err() != nil {
 		return errors.New("context canceled")
 	}
